@@ -52,11 +52,13 @@ def cases(tier, salts):
     ns = [1, 2, 3] if tier == "quick" else [1, 2, 3, 4]
     for salt in salts:
         for n in ns:
+            if n == 4 and salt > 1:
+                continue
             gl = G_LETTERS if n <= 3 else [-1.0, 0.0, 1.0]
             scales = SCALES if n <= 3 else [1e-3, 1.0]
             hf = HFAMS if n <= 3 else ["zero", "rank1", "dense", "indef"]
             deltas = DELTAS if n <= 3 else [1e-6, 1.0, 1e2]
-            xos = [0, 1] if (n <= 2 or tier == "thorough") and salt == 0 else [1 if salt else 0]
+            xos = [0, 1] if (n <= 2 or (tier == "thorough" and n == 3)) and salt == 0 else [1 if salt else 0]
             if n == 3 and tier == "quick":
                 xos = [1]
             for xo in xos:
